@@ -77,6 +77,13 @@ CYCLES = {
     "chunk-eof": "(let [[r w] (os/pipe)] (ev/write w \"abc\") (:close w) (ev/chunk r 10) (:close r))",
     "write-to-closed-reader": "(let [[r w] (os/pipe)] (:close r) (protect (ev/write w \"abc\")) (:close w))",
     "marshal-chan": "(let [c (ev/chan 2)] (ev/give c 1) (unmarshal (marshal c)))",
+    "stream-to-thread-read": "(let [[r w] (os/pipe) c (ev/thread-chan 1)] (ev/thread (fn [&] (ev/give c (string (ev/read r 5))) (:close r)) nil :n) "
+                             "(ev/sleep 0.002) (ev/write w \"hello\") (ev/take c) (:close r) (:close w))",
+    "stream-over-thread-chan": "(let [[r w] (os/pipe) c (ev/thread-chan 1) d (ev/thread-chan 1)] (ev/thread (fn [&] (let [s (ev/take c)] (ev/write s \"yo\") (:close s)) (ev/give d 1)) nil :n) "
+                               "(ev/give c w) (ev/take d) (ev/read r 2) (:close r) (:close w))",
+    "spawn-bad-arg-after-pipe": "(do (protect (os/spawn [\"sim-child\" \"x0\"] :p {:in :pipe :out 42})) (protect (os/spawn [\"sim-child\" \"x0\"] :p {:out :pipe :cd 5})))",
+    "give-unmarshallable-to-thread-chan": "(let [c (ev/thread-chan 2)] (protect (ev/give c (parser/new))) (ev/give c 1) (ev/take c))",
+    "connect-fails-then-pipe": "(do (protect (net/connect :unix (string \"@jsim-c20-nobody2-\" (os/getpid)))) (let [[r w] (os/pipe)] (gccollect) (ev/write w \"x\") (ev/read r 1) (:close r) (:close w)))",
     "to-file-less": "(let [[r w] (os/pipe)] (ev/write w (string/repeat \"x\" 5000)) (:close w) (ev/read r :all) (:close r))",
 }
 # counters that must not grow at all between N1 and N2 cycles, and those with a constant allowance
@@ -218,6 +225,11 @@ class C20(Driver):
         if oc not in ("ok", "deadlock", "livelock"):
             return [Violation("C20/run/%s" % oc.split(":")[0], (res.log or "")[-600:])]
         evs = res.events
+        for e in evs:
+            if e.kind == "!badclose":
+                what = "+".join(plan["cycles"]) if plan["kind"] == "cycle" else "term"
+                V("C20/descriptor/closed-a-descriptor-that-is-not-open/in=%s" % what, "close(%s) failed with EBADF: a double close" % e.payload)
+                break
         if plan["kind"] == "cycle":
             tag = "+".join(plan["cycles"])
             if oc != "ok":
